@@ -358,6 +358,23 @@ let () =
            (* the state before this step already violates the invariants (an earlier step was reported for it):
               the theorems say nothing about such states, so the step is not judged *)
            bump dist "steps_skipped_broken_pre_state";
+           (* C03's monitor is a statement about the true sizes of the entries, not about the bookkeeping: it is evaluated all the
+              same when the only thing wrong with the state before is the bookkeeping of sizes (recorded sizes that lag behind
+              the entries, a counter that is off) — an eviction that takes more than was needed is a violation whatever misled it *)
+           (match parse_op rest with
+            | Plain (p, _, _) when not tainted.(slot) && post.res <> "panic" && inject = None && c04_nodup_mon pre.st && c04_nodup_mon post.st
+                                   && (match pre.graph with Some g -> ri_check g | None -> true)
+                                   && (match post.graph with Some g -> ri_check g | None -> true) ->
+              let ok = c03_mon !e pre.st p post.st in
+              tally "mon_c03" ok;
+              if not ok then begin
+                incr fails;
+                if !fails <= 200 then
+                  Printf.printf "FAIL trace=%d step=%d line=%d comps=%s\n  op:   %s\n  pre:  %s|%s|%s|%s|%s\n  impl: %s\n  note: the state before already had inconsistent size bookkeeping; judged on the true sizes only\n"
+                    !trace !step !lineno "mon_c03" opline pre.raw_ents (s_of_n pre.st.cur) (s_of_n pre.st.maxs) (s_of_n pre.cap) (s_of_n pre.st.tb.nb)
+                    (if String.length line > 700 then String.sub line 0 700 ^ "..." else line)
+              end
+            | _ -> ());
            (* keep the history variables of the growth bound up to date all the same *)
            peaks.(slot) <- max peaks.(slot) (max (List.length pre.st.ents) (List.length post.st.ents));
            (match rest, post.res with
@@ -590,6 +607,8 @@ let () =
               chkw "addr_stable" (not moved || (may_rebuild && not stayed));
               (* monitors on the implementation's observations *)
               if not tainted.(slot) then begin chkw "mon_c01" (c01_mon !e post.st); chkw "mon_c02" (c02_mon !e post.st) end;
+              (* eviction is minimal in the true sizes of the entries (A/MonitorsA.v c03_mon, sound for the model: A/MonC03.v) *)
+              (match xop with Plain (p, _, _) when not tainted.(slot) && post.res <> "panic" && inject = None -> chkw "mon_c03" (c03_mon !e pre.st p post.st) | _ -> ());
               (* the counter never exceeds the limit when an operation returns — also in a cache that went through a caught panic *)
               if post.res <> "panic" then chk "mon_c01_cur" (Z.leq (z_of_n post.st.cur) (z_of_n post.st.maxs));
               (* at every point the counter is the sum of the recorded sizes — also in a cache that went through a caught panic *)
